@@ -35,6 +35,9 @@ func kindInners() []*gen.Expr {
 		gen.Chain(a(), gen.StFilter(gen.Not(gen.Current()))), gen.Chain(a(), gen.StFilter(gen.Cmp("==", gen.Current(), gen.LitJSON("null")))), gen.Chain(gen.Field("x"), gen.StFilter(a()), gen.StField("missing")),
 		gen.Chain(gen.LitJSON("[null, 1, null]"), gen.StFilter(gen.Not(gen.Current()))), gen.Func("length", gen.Chain(gen.LitJSON("[null, 1, null, 0]"), gen.StFilter(gen.Not(gen.Current())))),
 		gen.Cmp("<=", s(), s()), gen.Cmp("==", a(), a()), gen.Cmp(">=", gen.Current(), gen.Current()),
+		// built from literals only (what a constant folder would take for document-independent)
+		gen.MultiList(gen.LitJSON("3"), gen.Raw("r")), gen.MultiHash([]gen.Key{{Name: "k"}, {Name: "j"}}, []*gen.Expr{gen.LitJSON("1"), gen.Raw("x")}), gen.Chain(gen.MultiList(gen.LitJSON("[4]")), gen.StIndex(0)),
+		gen.Func("length", gen.Raw("abc")), gen.Cmp("<", gen.LitJSON("1"), gen.LitJSON("2")), gen.Func("type", gen.MultiList(gen.LitJSON("1"))),
 	}
 }
 
